@@ -122,13 +122,16 @@ def check(s):
     loc = P.loc(m, fn)
     maskable = P.cls("AbstractMaskableDistribution")
     seen = {}
-    for p in s.fpaths(b, "lerax.policy.actor", "make_action_layer"):
-        if p.raised is not None:
+    # the dispatcher is evaluated once per concrete space kind (the argument is an instance of that class, so isinstance chains, `match`
+    # statements and dispatch tables probed in order all decide statically)
+    kinds = [c for c in P.concrete_exported("lerax.space") if P.is_subclass(c, P.cls("AbstractSpace"))]
+    for kc in kinds:
+        space_kind = kc.name
+        bk = s.builder(inline=set())
+        ps = [p for p in s.fpaths(bk, "lerax.policy.actor", "make_action_layer", binding={"action_space": ("record", kc.qualname, ())}) if p.raised is None]
+        if len(ps) != 1 or ps[0].conds or not (isinstance(ps[0].ret, tuple) and ps[0].ret[0] == "record" and ps[0].ret[1] in P.classes):
             continue
-        trues = [t for t, v in p.conds if v]
-        if len(trues) != 1 or not (isinstance(p.ret, tuple) and p.ret[0] == "record"):
-            continue
-        space_kind = trues[0][2][1][1].split(".")[-1]
+        p = ps[0]
         layer = P.classes[p.ret[1]]
         bl = s.builder(inline=set())
         call = P.resolve_method(layer, "__call__")
